@@ -237,6 +237,8 @@ static std::string runBurst(int n, bool edgeTriggered)
         sockaddr_in sa{};
         socklen_t l = sizeof(sa);
         if (::getsockname(it->second->fd, reinterpret_cast<sockaddr *>(&sa), &l) == 0) lport = ntohs(sa.sin_port);
+        int big = 400 * 1024;       // room for the whole burst (the kernel caps it at net.core.rmem_max)
+        ::setsockopt(it->second->fd, SOL_SOCKET, SO_RCVBUF, &big, sizeof big);
       }
     }
     if (lport == 0) std::this_thread::sleep_for(std::chrono::milliseconds(1));
